@@ -304,7 +304,9 @@ def groupOp (C : Params) (op : String) (args : List String) (rhs : String) : Ver
       if ks.length != ps.length then .unsupported "msm lengths" else
       let want := msm C ks ps
       -- the public API hands `Scalar.V.Bytes()` (little-endian, fixed size) to the bucket method
-      match ks.mapM (natToLE? ((C.n.log2 + 8) / 8)) with
+      -- (executed for the short vectors: naive path and the bucket method with w = 4, 5; the long
+      -- ones are covered over ℤ/n by the `msmg` lines)
+      match (if ks.length ≤ 16 then ks.mapM (natToLE? ((C.n.log2 + 8) / 8)) else none) with
       | some bs =>
         if ptMsm C bs ps != want then .unsupported "window-model-inconsistent msm" else
         spec "msm" (render C want) rhs
